@@ -24,6 +24,7 @@ META = {
 }
 META['bounds'].append('exchange rates built under 3 pairs of default rounding modes')
 META['bounds'].append('rate hashed before and after the change of the default mode')
+META['bounds'].append('portions and remainder of 27 concrete allocations: hash equal to their conversions and to a fresh twin')
 
 
 def setup(mode):
